@@ -388,8 +388,11 @@ def meta(tier):
                 'expression tree (BFS depth 1 and 2 over 9 leaves, 12 unary and 6 binary combinators '
                 'incl. the with-temporaries constructors) | block operator over all leaf pairs. Each '
                 'state is decided for ALL directions on the full real basis against twice '
-                'Richardson-extrapolated central differences. distinct = (operator class, outcome) + '
-                'executed lines of the derivative methods',
+                'Richardson-extrapolated central differences. History inside a state: one element '
+                'object is modified in place across base points, D(e) is applied twice, and a '
+                'derivative taken at a private copy of the first point must act the same after all '
+                'later calls (these clauses also run for the accuracy-exempt classes). distinct = '
+                '(operator class, outcome) + executed lines of the derivative methods',
         'bounds': {'h': H, 'base_points': 3 if tier == 'quick' else 5, 'max_dim': MAXDIM,
                    'expression_depth': 2},
         'assumptions': ['limit statement: only the fixed h-grid is decided (tolerance 2e-7 relative '
